@@ -154,6 +154,76 @@ def block_grid_cases(run, rng, n):
         run.sample({"block_grid_case": {k: v for k, v in desc.items() if k not in ("labels", "vals")}})
 
 
+def cohort_merge_cases(run, rng, n):
+    """1-D labels over many blocks with OVERLAPPING cohorts (so that the planner reaches its merging stage), several labels living in
+    identical block sets, and requested labels that never occur (some smaller than every present label): the automatic plan and an
+    explicit method='cohorts' must not fail where map-reduce succeeds, and must give the same answer"""
+    import warnings
+
+    import dask
+    import dask.array as da
+    import numpy as np
+
+    import flox
+
+    desc = None
+    for _ in range(n):
+        nb = rng.randint(4, 9)
+        csz = rng.randint(1, 3)
+        m = nb * csz
+        low = rng.randint(0, 3)                      # requested labels below `low` never occur
+        npres = rng.randint(3, 6)
+        present = list(range(low, low + npres))
+        labels = np.zeros(m, dtype=int)
+        # every present label gets a contiguous window of blocks; windows overlap; some labels share exactly the same window
+        windows = {}
+        for lab in present:
+            if windows and rng.random() < 0.35:
+                windows[lab] = windows[rng.choice(list(windows))]
+            else:
+                a = rng.randrange(nb)
+                windows[lab] = (a, min(nb, a + rng.randint(1, 4)))
+        for b in range(nb):
+            cands = [lab for lab, (a, e) in windows.items() if a <= b < e] or [present[0]]
+            for i in range(csz):
+                labels[b * csz + i] = rng.choice(cands)
+        ngroups = low + npres + rng.randint(0, 2)
+        vals = np.array([rng.randint(-4, 4) for _ in range(m)], dtype=float)
+        func = rng.choice(["sum", "nanmax", "count", "mean"])
+        desc = {"labels": labels.tolist(), "vals": vals.tolist(), "chunk_size": csz, "expected_groups": f"arange({ngroups})", "func": func}
+        outs = {}
+        for method in ("map-reduce", None, "cohorts"):
+            try:
+                with warnings.catch_warnings(), dask.config.set(scheduler="sync"):
+                    warnings.simplefilter("ignore")
+                    r, _ = flox.groupby_reduce(da.from_array(vals, chunks=csz), labels, func=func, method=method, expected_groups=np.arange(ngroups), fill_value=-99)
+                    outs[method] = ("Ok", np.asarray(r.compute(), dtype=float))
+            except BaseException as e:  # noqa: BLE001
+                if isinstance(e, (KeyboardInterrupt, SystemExit)):
+                    raise
+                outs[method] = (I.exc_class(e) + ": " + str(e)[:100], None)
+        run.count("cm|" + json.dumps(desc, sort_keys=True), True)
+        mr = outs["map-reduce"]
+        problem = None
+        for method in (None, "cohorts"):
+            oc, r = outs[method]
+            if oc.startswith("Internal"):
+                problem = f"method={method!r}: internal error {oc}"
+            elif mr[0] == "Ok" and oc != "Ok" and method is None:
+                problem = f"the automatic plan is refused ({oc}) although an explicit map-reduce succeeds"
+            elif mr[0] == "Ok" and oc == "Ok" and not np.allclose(r, mr[1], equal_nan=True):
+                problem = f"method={method!r} gives another answer than map-reduce"
+            if problem:
+                break
+        if problem:
+            run.violation(dict(desc, property="C19", kind="overlapping cohorts: " + problem,
+                               outcomes={str(k): [v[0], None if v[1] is None else v[1].tolist()] for k, v in outs.items()},
+                               how_to_run="flox.groupby_reduce(da.from_array(vals, chunks=chunk_size), labels, func=func, method=m, expected_groups=np.arange(n), fill_value=-99)"),
+                          tag="cmerge")
+    if desc:
+        run.sample({"cohort_merge_case": desc})
+
+
 def run(run: C.Run):
     rng = random.Random(run.seed)
     if not P.front(run, translators=("tables",)):
@@ -234,6 +304,7 @@ def run(run: C.Run):
     for info in unexplained[:6]:
         run.violation(info, tag="grid")
     block_grid_cases(run, rng, 1200 if thorough else 200)
+    cohort_merge_cases(run, rng, 1500 if thorough else 250)
     run.cov["rule"] = (
         "n-d labels over random NON-SQUARE block grids with unequal blocks (groups confined to blocks or spread), 4 methods vs the per-group NumPy "
         "result; finite configuration grid: reduction (29) x engine (5) x method (4) x reindex (3) x label kind (numpy/dask) x label ndim (1/2/3) x axis "
